@@ -84,7 +84,11 @@ theorem read_within_limit (max : Nat) (hmax : 0 < max) (src : Src) :
         · simp only [hover, and_self, if_true, Prog.run]
           cases (takeExact (fromBe32 a b c d) (takeExact 5 src).2.2).2.1 with
           | none => simp [Prog.run]
-          | some e => simp only; split <;> simp [Prog.run]
+          | some e =>
+            simp only
+            split
+            · simp [Prog.run]
+            · cases e <;> simp [Prog.run]
         · simp only [hover, if_false]
           rw [Prog.run_bind]
           have hsz : fromBe32 a b c d ≤ max := by omega
